@@ -2085,7 +2085,41 @@ def heal_module(rel: str, src: str, tree: ast.Module) -> Tuple[ast.Module, List[
             idx = next(i for i, s in enumerate(cbody) if s is cnode)
             cbody[idx] = new
             healed.append(key)
-    if not healed:
+    # functions that could not be proven equivalent but call helpers the reviewed tree does not have: the helpers are
+    # inlined (a semantics-preserving rewrite on its own), so that the rules see the statements in their context
+    inlined: List[str] = []
+    if cur_helpers:
+        for key in list(cf):
+            if key in healed or key in cur_helpers:
+                continue
+            cnode, cbody, ccls = cf[key]
+            names = _referenced_names(cnode)
+            if not any(k.split(".")[-1] in names for k in cur_helpers):
+                continue
+            g = copy.deepcopy(cnode)
+            try:
+                if not Inliner(Ctx(cur_helpers, {}, ccls, mod_names_c), g).run():
+                    continue
+                forward_substitute(g)
+                coalesce_copies(g)
+            except (NotInlinable, RecursionError, AttributeError, TypeError, ValueError, IndexError, KeyError):
+                continue
+            for n in ast.walk(g):
+                if isinstance(n, ast.Name) and "$" in n.id:
+                    n.id = n.id.replace("$", "__inl")
+                elif isinstance(n, FuncNode) and "$" in n.name:
+                    n.name = n.name.replace("$", "__inl")
+            ast.copy_location(g, cnode)
+            for n in ast.walk(g):
+                if isinstance(n, (ast.stmt, ast.expr)) and not hasattr(n, "lineno"):
+                    n.lineno = cnode.lineno  # type: ignore[attr-defined]
+                    n.col_offset = 0  # type: ignore[attr-defined]
+                    n.end_lineno = cnode.lineno  # type: ignore[attr-defined]
+                    n.end_col_offset = 0  # type: ignore[attr-defined]
+            idx = next(i for i, s_ in enumerate(cbody) if s_ is cnode)
+            cbody[idx] = g
+            inlined.append(key)
+    if not healed and not inlined:
         return tree, log
     # helpers that exist only on the current side and are no longer referenced by anything: drop them;
     # helpers of the reviewed tree that the healed functions call again: bring them back.
@@ -2114,6 +2148,8 @@ def heal_module(rel: str, src: str, tree: ast.Module) -> Tuple[ast.Module, List[
     ast.fix_missing_locations(cur_tree)
     for k in healed:
         log.append(f"{rel}:{k}: proven equivalent to its reviewed form (normal forms equal); analysed in the reviewed form")
+    for k in inlined:
+        log.append(f"{rel}:{k}: calls helpers that the reviewed tree does not have; analysed with those helpers inlined")
     return cur_tree, log
 
 
